@@ -176,3 +176,13 @@ def stratified(gs, count, seed=0, must=()):
                 out.append(g)
                 names.add(g.name)
     return out
+
+
+def tiny4_fixed(count=400):
+    """Fixed (seed-independent) stratified subset of GF-tiny(4): part of the stated program bound of thorough tiers."""
+    return stratified(gf_tiny(4), count, 0)
+
+
+def tiny3x3_fixed(count=600):
+    """Fixed stratified subset of GF-tiny(3) with right-hand sides up to length 3 (41 898 grammars in the family)."""
+    return stratified(gf_tiny(3, maxrhs=3), count, 0)
